@@ -368,6 +368,8 @@ func short(s string, n int) string {
 	return s
 }
 
+func base64Std(b []byte) string { return base64.StdEncoding.EncodeToString(b) }
+
 var _ = bytes.NewReader
 
 // ---------------------------------------------------------------- policy IdP (real signing path, stub policy)
